@@ -13,6 +13,7 @@ import (
 
 	"verif/sim/kit"
 	"verif/sim/load"
+	"verif/sim/modset"
 	"verif/sim/schema"
 )
 
@@ -437,6 +438,13 @@ func c14Batch(c *Check, tier string) int {
 		s := schema.GenerateRich(r, "m", r.Range(15, 50), r.Range(1, 4))
 		main, mods := s.Modules()
 		cs := &load.Case{ID: fmt.Sprintf("gen|%d|whole-by-name", i), MainName: main, Files: mods, Order: load.OrderSpec{Mode: "perm", Seed: r.Uint64()}}
+		cases = append(cases, cs)
+		origin[cs.ID] = "generated-set"
+		wholeByName = append(wholeByName, cs)
+	}
+	for i := 0; i < nGen; i++ {
+		ms := modset.Generate(r, r.Range(30, 90))
+		cs := &load.Case{ID: fmt.Sprintf("gen|ms%d|whole-by-name", i), MainName: ms.Main, Files: ms.Files, Order: load.OrderSpec{Mode: "perm", Seed: r.Uint64()}}
 		cases = append(cases, cs)
 		origin[cs.ID] = "generated-set"
 		wholeByName = append(wholeByName, cs)
